@@ -52,13 +52,13 @@ TIERS = {
                  ("Z", 2, "pow2"), ("Z", 2, "all"), ("Z", 3, "pow2"), ("Z", 3, "all"), ("F", 2, "all"), ("F", 3, "all"),
                  ("T", 233, "first"), ("T", 233, "ab"), ("T", 233, "mix"), ("T", 233, "triv"), ("T", 234, "ab"),
                  ("T", 234, "first"), ("T", 235, "ab"), ("T", 235, "first"), ("T", 237, "all"), ("S", 2, "all"), ("D", 4, "comm"), ("D", 3, "second"),
-                 ("Z", 2, "sqab"), ("F", 2, "sqab"), ("F", 3, "sqab"), ("T", 233, "second"), ("T", 234, "mix"), ("T", 233, "inv"),
+                 ("Z", 2, "sqab"), ("F", 2, "sqab"), ("T", 233, "second"), ("T", 234, "mix"), ("T", 233, "inv"),
                  ("T", 234, "inv"), ("T", 235, "mix"), ("D", 6, "comm"), ("D", 5, "mix"), ("L", 4, "first"), ("L", 6, "second"),
-                 ("R", 2, "pow2"), ("R", 3, "pow2"), ("Z", 3, "sqab"), ("D", 3, "b3"), ("C", 6, "a4"), ("T", 234, "b3"), ("D", 5, "b3"),
+                 ("R", 2, "pow2"), ("R", 3, "pow2"), ("D", 3, "b3"), ("C", 6, "a4"), ("T", 234, "b3"), ("D", 5, "b3"),
                  ("C", 8, "a4"), ("T", 233, "a4"), ("A", 3, "pow2"), ("A", 3, "first"), ("A", 2, "triv"), ("T", 234, "b2"), ("T", 235, "b2"),
                  ("Z", 3, "pow2"), ("A", 3, "b2")],
 }
-BOUND = {"quick": 8, "thorough": 9}
+BOUND = {"quick": 8, "thorough": 8}
 SOLVER_TIMEOUT = {"quick": 120, "thorough": 1200}
 
 
